@@ -40,7 +40,7 @@ import (
 
 type c19Pools struct {
 	walletIDs, addrs, staking, foreign, txids, rawHex, keystores, mnemonics, passes, pubkeys, targets []string
-	tip                                                                                              uint64
+	tip                                                                                               uint64
 }
 
 var c19Junk = []string{"", " ", "0", "-1", "1", "00", "0x00", "zz", "1e400", "NaN", "-0.00000001", "0.000000001", "92233720368.54775807", "92233720368.54775808",
@@ -690,7 +690,6 @@ func (e *c19Env) request() {
 		e.violate(c)
 	}
 }
-
 
 // overlapMethods: handlers that work on the wallet in use (the removal of that wallet unsets it).
 var c19OverlapMethods = []string{"GetWalletBalance", "GetAddressBalance", "GetUtxo", "GetAddresses", "TxHistory", "GetStakingHistory", "GetBindingHistory",
